@@ -9,7 +9,9 @@
 package network
 
 import (
+	"bytes"
 	"context"
+	"encoding/binary"
 	"errors"
 	"io"
 	"time"
@@ -206,4 +208,112 @@ func VerifNet_Stream() {
 	verifrt.Quiesce()
 	verifrt.Assert(len(rcv2.msgs) == 1 && len(rcv2.errs) == 0, "C12 a later stream was not served after a malformed one")
 	verifrt.Reached("end-stream")
+}
+
+func realFrame(i int) []byte {
+	id := make([]byte, 16)
+	id[15] = byte(i + 1)
+	rid, _ := graphsync.ParseRequestID(id)
+	m := gsmsg.NewMessage(nil, map[graphsync.RequestID]gsmsg.GraphSyncResponse{rid: gsmsg.NewResponse(rid, graphsync.RequestCompletedFull, nil)}, nil)
+	var buf bytes.Buffer
+	if err := gsmsgv2.NewMessageHandler().ToNet("p", m, &buf); err != nil {
+		panic(err)
+	}
+	return append([]byte{}, buf.Bytes()...)
+}
+
+const (
+	rbValid = iota
+	rbMutated   // one payload byte replaced by an arbitrary value
+	rbCutShort  // payload truncated, prefix corrected: a complete frame holding incomplete CBOR
+	rbTruncated // stream ends inside the frame
+	rbOversize
+	rbEmpty
+	nRealKinds
+)
+
+// VerifNet_StreamBytes (C12): the same stream-handler properties with nothing
+// stubbed below it: real frames, the real byte decoder.  Whether a mutated
+// frame is malformed is decided by decoding that frame alone with the same
+// real decoder.
+func VerifNet_StreamBytes() {
+	nframes := 1 + verifrt.Choose("frames", verifrt.Param("FRAMES", 2))
+	mh := gsmsgv2.NewMessageHandler()
+	var data []byte
+	good := make([]bool, nframes)
+	nmut := 0
+	for i := 0; i < nframes; i++ {
+		fr := realFrame(i)
+		_, plen := binary.Uvarint(fr)
+		switch verifrt.Choose("frame-kind", nRealKinds) {
+		case rbValid:
+		case rbMutated:
+			nmut++
+			if nmut > verifrt.Param("MUTFRAMES", 1) {
+				verifrt.Assume(false)
+			}
+			pos := plen + verifrt.Choose("position", len(fr)-plen)
+			fr[pos] = verifrt.U8("byte")
+			verifrt.Cover("mutated-frame")
+		case rbCutShort:
+			cut := plen + 1 + verifrt.Choose("cut", len(fr)-plen-1)
+			payload := fr[plen:cut]
+			fr = append(uvarint(uint64(len(payload))), payload...)
+		case rbTruncated:
+			if i != nframes-1 {
+				verifrt.Assume(false)
+			}
+			fr = fr[:plen+verifrt.Choose("cut", len(fr)-plen)]
+		case rbOversize:
+			fr = uvarint(network.MessageSizeMax + 1)
+		case rbEmpty:
+			fr = uvarint(0)
+		}
+		_, err := mh.FromNet("p", bytes.NewReader(fr))
+		good[i] = err == nil
+		data = append(data, fr...)
+	}
+	var panicsSeen []any
+	ph := panics.MakeHandler(func(obj any, stack string) { panicsSeen = append(panicsSeen, obj) })
+	rcv := &fakeReceiver{}
+	gsnet := &libp2pGraphSyncNetwork{
+		receiver:               rcv,
+		protocols:              []protocol.ID{ProtocolGraphsync_2_0_0},
+		panicHandler:           ph,
+		messageHandlerSelector: &messageHandlerSelector{v2MessageHandler: gsmsgv2.NewMessageHandler(), panicHandler: ph},
+	}
+	s := &fakeStream{data: data, conn: &fakeConn{remote: "peerA"}}
+	gsnet.handleNewStream(s)
+	verifrt.Quiesce()
+	wantMsgs := 0
+	bad := false
+	for _, g := range good {
+		if g {
+			wantMsgs++
+			continue
+		}
+		bad = true
+		break
+	}
+	verifrt.Eventf("good=%v msgs=%d errs=%d resets=%d closes=%d panics=%d", good, len(rcv.msgs), len(rcv.errs), s.resets, s.closes, len(panicsSeen))
+	verifrt.Assert(len(panicsSeen) == 0, "C12 hostile bytes made the decoder panic")
+	verifrt.Assert(len(rcv.msgs) == wantMsgs, "C12 messages delivered differ from the well-formed frames before the first malformed one")
+	if bad {
+		verifrt.Cover("malformed-frame")
+		verifrt.Assert(len(rcv.errs) == 1, "C12 a malformed frame was not reported as exactly one receive error")
+		verifrt.Assert(s.resets == 1, "C12 the stream of a malformed frame was not reset exactly once")
+	} else {
+		verifrt.Cover("all-well-formed")
+		verifrt.Assert(len(rcv.errs) == 0 && s.resets == 0, "C12 a well-formed stream was reported as an error or reset")
+	}
+	verifrt.Assert(s.closes == 1, "C12 the stream was not closed exactly once")
+	for _, m := range rcv.msgs {
+		for _, r := range m.Responses() {
+			verifrt.Assert(len(r.RequestID().Bytes()) == 16, "C12 delivered request ID is not 16 bytes")
+		}
+		for _, r := range m.Requests() {
+			verifrt.Assert(len(r.ID().Bytes()) == 16, "C12 delivered request ID is not 16 bytes")
+		}
+	}
+	verifrt.Reached("end-stream-bytes")
 }
